@@ -184,9 +184,10 @@ class GeomBase(object):
         if isinstance(self._value, (tuple, list, np.ndarray)):
             # This is a wide mask
             if wide_mask_maxbits is None:
-                wide_mask_maxbits = np.max(self._value)
+                # Bit positions count from 0, so the largest bit needs one more bit of width.
+                wide_mask_maxbits = np.max(self._value) + 1
             else:
-                if wide_mask_maxbits < np.max(self._value):
+                if wide_mask_maxbits <= np.max(self._value):
                     raise ValueError("wide_mask_maxbits (%d) is less than maximum bit value (%d)" %
                                      (wide_mask_maxbits, np.max(self._value)))
 
